@@ -46,7 +46,9 @@ Clauses(ev) ==
     <<"Completes", TRUE>>,
     <<"ExaminesExactlyReported", SameMultiset(ev.yielded, Expected(ev.report))>>,
     <<"CwdPreservedAtEnd", ev.cwds[Len(ev.cwds)] = ev.cwd0>>,
-    <<"CwdPreservedDuring", \A k \in 1..Len(ev.cwds) : ev.cwds[k] = ev.cwd0>>
+    <<"CwdPreservedDuring", \A k \in 1..Len(ev.cwds) : ev.cwds[k] = ev.cwd0>>,
+    \* the command run from a sub-directory with a relative --out: the file appears in the directory it was run from
+    <<"OutputWhereRun", Has(ev, "outwhere") => ev.outwhere = ev.cwd0>>
   >>
 
 Report(ev) ==
